@@ -257,7 +257,7 @@ def correspondence(ctx, obs, spans, units, label="C17"):
 
 def run(ctx):
     binp = build_harness(ctx)
-    msgs, spans = regen(ctx, ["config_tables", "config_sites"])
+    msgs, spans = regen(ctx, ["config_tables", "config_sites", "config_steps"])
     ctx.cov["translated_spans"] = {k: v for k, v in spans.items() if k.startswith(("pm_type", "polarization", "math::sigfigs", "config::", "site::"))}
     for m in msgs:
         ctx.proof_failures.append(("Gen/Config*.v", "translator", m))
